@@ -34,6 +34,29 @@ def _seg_slice(s, a, b):
     return [IntSeg(v, b - a)]
 
 
+class SIntB(SInt):
+    """the integer value of a byte string, remembering the bytes (so that
+    bytes -> int -> bytes cancels structurally instead of through div/mod)"""
+    __slots__ = ("segs", "nbytes")
+
+    def __init__(self, t, segs, nbytes):
+        SInt.__init__(self, t)
+        self.segs = segs
+        self.nbytes = nbytes
+
+
+def _expand(seg):
+    """IntSeg of a remembered byte string -> its original segments.
+    Contract of IntSeg: 0 <= v < 256^n, so when the remembered string is longer
+    its leading bytes are zero on this path and can be dropped."""
+    v = seg.v
+    if isinstance(v, SIntB):
+        if v.nbytes <= seg.n:
+            return [0] * (seg.n - v.nbytes) + list(v.segs)
+        return SBytes(v.segs)._slice(v.nbytes - seg.n, v.nbytes)
+    return None
+
+
 class SBytes(object):
     """kind: 'bytes' | 'memoryview' (what normalise_bytes returns) | 'bytearray'"""
     __slots__ = ("segs", "n", "kind")
@@ -44,6 +67,12 @@ class SBytes(object):
         for s in segs:
             if isinstance(s, IntSeg):
                 if s.n == 0:
+                    continue
+                ex = _expand(s)
+                if ex is not None:
+                    for e in ex:
+                        out.append(e)
+                        n += _seg_len(e)
                     continue
                 if s.n == 1:
                     s = s.v
@@ -174,10 +203,15 @@ class SBytes(object):
     def to_int(self):
         """big-endian integer value (int(hexlify(s), 16) for non-empty s)"""
         total = 0
+        sym = False
         for s in self.segs:
             l = _seg_len(s)
             v = s.v if isinstance(s, IntSeg) else s
+            if not isinstance(v, int):
+                sym = True
             total = total * (256 ** l) + v
+        if sym and isinstance(total, SInt):
+            return SIntB(total.t, list(self.segs), self.n)
         return total
 
     def _boundaries(self):
@@ -333,6 +367,8 @@ class SDigits(object):
             return self.nd
         # nd = number of digits of v (v >= 0), 1 for v == 0
         lo, hi = interval(v)
+        if (lo is None or lo < 0) and not ctx().feasible(lift(v) < lift(0)):
+            lo = 0
         if lo is None or hi is None or lo < 0:
             raise CannotEncode("digit count of unbounded symbolic int")
         dlo = max(1, len(_digits(lo, self.base)))
